@@ -72,4 +72,29 @@ PROPS = {
             "greedy vs lazy never changes the set of offsets; any matchable length is accepted as the reported length",
         ],
     },
+    "C04": {
+        "src": "c04", "engine": "rc", "level": "exploration",
+        "technique": "property-based testing (rapidcheck): generated typed condition trees vs a reference interpreter written from the manual",
+        "level_text": ("Typed expression trees over every operator family (string presence/count/offset/length, at/in, of and "
+                       "for..of / for..in with every quantifier form, integer/float arithmetic, bitwise, shifts, comparisons, "
+                       "string operators, intN/uintN readers, filesize, rule references, externals, defined/not/and/or, "
+                       "deliberately undefined operands) are printed with minimal parentheses from the manual's precedence "
+                       "table, compiled and evaluated by the engine; each rule's verdict is compared with a reference "
+                       "interpreter that works on match lists computed by the (C01-checked) text-string model."),
+        "level_note": ("Trusts the reference interpreter and its stated assumptions; depth <= 6, <= 4 nested loops, loop ranges "
+                       "kept small by construction, constants kept inside the compile-time checks (rejections are counted "
+                       "as discards); `matches` is covered by C03, module objects by C06/C14."),
+        "quick": (6000, 45), "thorough": (200000, 600),
+        "floor": 500,
+        "rule": ("case = 1-4 rules over 0-3 plain text strings, each condition a generated typed expression tree (depth 1-6) "
+                 "printed with minimal parentheses, evaluated on 1-3 buffers (<= 400 bytes) built from the strings' instances. "
+                 "Non-trivial: the tree has >= 3 operators on >= 2 precedence levels, or a loop, or a deliberately undefined "
+                 "operand; distinct by hash of (rule text, buffers)."),
+        "assumptions": [
+            "a for loop with zero iterations is false for every quantifier (exec.c OP_ITER_END comment)",
+            "a run-time quantifier equal to 0 means 'exactly none' in for loops as documented for `of`",
+            "shift by >= 64 gives 0, by a negative amount undefined, >> is arithmetic (exec.c)",
+            "float equality uses the engine's DBL_EPSILON tolerance; string ordering is bytewise with length tie-break",
+        ],
+    },
 }
